@@ -1,0 +1,18 @@
+// Copyright (C) 2015-2025 Jonathan Müller and foonathan/memory contributors
+// SPDX-License-Identifier: Zlib
+
+#ifndef FOONATHAN_MEMORY_DETAIL_VERIF_HOOKS_HPP_INCLUDED
+#define FOONATHAN_MEMORY_DETAIL_VERIF_HOOKS_HPP_INCLUDED
+
+// Scheduling points for deterministic simulation of thread interleavings.
+// They expand to nothing unless the library is compiled with -DFOONATHAN_MEMORY_VERIF=1,
+// in which case the test harness has to provide foonathan_memory_verif_yield().
+
+#if defined(FOONATHAN_MEMORY_VERIF) && FOONATHAN_MEMORY_VERIF
+extern "C" void foonathan_memory_verif_yield(const char* site) noexcept;
+#define FOONATHAN_MEMORY_VERIF_YIELD(Site) foonathan_memory_verif_yield(Site)
+#else
+#define FOONATHAN_MEMORY_VERIF_YIELD(Site) ((void)0)
+#endif
+
+#endif // FOONATHAN_MEMORY_DETAIL_VERIF_HOOKS_HPP_INCLUDED
